@@ -56,6 +56,12 @@ CHECKS = {
             "TLC runs the balance recognisers (string-expression nesting, datalines triple, label colon, "
             "built-in call parenthesis) on every result, with truncations of all inputs.",
             "TLA+ trace monitoring (TraceMon/Props)"),
+    "C11": ("model_checking", "8 C11, 7.3",
+            "spec/OpenCode.tla is a declarative longest-match reference lexer written from the grammar; TLC runs it on every "
+            "macro-free input (membership decided by the TLA+ predicate MacroFree) and compares tokens, channels, offsets and "
+            "errors with the real result: all strings up to length 2 over the full open-code alphabet, up to length 3 (4 "
+            "thorough) over a reduced one, datalines block templates, random longer texts.",
+            "TLA+ reference lexer (OpenCode) vs. recorded results"),
     "C15": ("model_checking", "8 C15",
             "TLC evaluates the composition relation (spec/Rel.tla C15_*) on (lex(A+B), lex(A), lex(B)) for prefixes A that the "
             "recorded end-of-input configuration (hook snapshot) shows to be closed, and continuations B from fragments, soup "
